@@ -444,6 +444,10 @@ if not CONCRETE:
             def __instancecheck__(cls, obj):
                 return type(obj) in (_builtins.set,) or super().__instancecheck__(obj)
 
+            # under tracing CrossHair evaluates isinstance(x, T) as issubclass(type(x), T), and type() of the stand-in is `set`
+            def __subclasscheck__(cls, sub):
+                return sub is _builtins.set or super().__subclasscheck__(sub)
+
         class EagerSet(_AbcMutableSet, CrossHairValue, metaclass=_SetMeta):
             def __init__(self, items=()):
                 self._items = []
